@@ -214,12 +214,7 @@ theorem rebuild_all_routes (k : Kind) (b : Bits) (hl : ValidLen k b.length = tru
     (ha : applicable r q (some (itemsOf k b.length)) = true) :
     route r q (some (itemsOf k b.length)) = .ok b := by
   obtain ⟨hv, he⟩ := encode_decode' k b hl q hq
-  have hk : q.kind = k := by
-    cases k <;> simp only [decodeSpec] at hq <;>
-      first
-        | (simp only [reqOfValue, Option.some.injEq] at hq; subst hq; rfl)
-        | (split at hq <;> first | (cases hq; rfl) | (cases hq))
-        | (cases hq)
+  have hk : q.kind = k := reqOfValue_kind k _ q hq
   have hr : resultLen q (some (itemsOf k b.length)) = b.length := by
     rw [resultLen_some, hk]; exact itemsOf_mul k _ hl
   rw [routes_agree' q _ hv r ha, hr, he]
